@@ -38,11 +38,15 @@ type zzPoolModel struct {
 	subs      []*zzSubmitted
 	batches   []*raftproto.RequestBatch
 	lastHeight uint64
+	timed      bool
 }
 
-func zzNewPool(batchSize uint64, m *zzPoolModel) *mempoolImpl {
+func zzNewPool(batchSize uint64, m *zzPoolModel) *mempoolImpl { return zzNewPoolMode(batchSize, m, false) }
+
+// zzNewPoolMode: timed = blocks are cut by a ticker (GenerateBlock on demand), not by the pool's size.
+func zzNewPoolMode(batchSize uint64, m *zzPoolModel, timed bool) *mempoolImpl {
 	return newMempoolImpl(&Config{
-		ID: 1, BatchSize: batchSize, PoolSize: 100, TxSliceSize: 10, ChainHeight: 1, Logger: zz.Logger(),
+		ID: 1, BatchSize: batchSize, PoolSize: 100, TxSliceSize: 10, ChainHeight: 1, Logger: zz.Logger(), IsTimed: timed,
 		GetAccountNonce: func(a *types.Address) uint64 {
 			for i, x := range zzAccts {
 				if x.String() == a.String() {
@@ -68,7 +72,8 @@ func zzCheckBatch(m *zzPoolModel, b *raftproto.RequestBatch, batchSize uint64) {
 	if b == nil {
 		return
 	}
-	zz.Assert("C18.batch-size", uint64(len(b.TxList.Transactions)) <= batchSize && len(b.TxList.Transactions) > 0)
+	// (a timed pool may cut an empty block; a size-triggered one never does)
+	zz.Assert("C18.batch-size", uint64(len(b.TxList.Transactions)) <= batchSize && (len(b.TxList.Transactions) > 0 || m.timed))
 	zz.Assert("C18.height+1", b.Height == m.lastHeight+1)
 	m.lastHeight = b.Height
 	for _, tx := range b.TxList.Transactions {
@@ -235,12 +240,14 @@ func zzPoolHist() {
 // arrive out of order), the next nonce is submitted. No (account, nonce) is handed to consensus
 // twice, batches stay consecutive, and after draining every transaction was batched exactly once
 // and the pool reports no pending work.
-// zz:also C19
+// (also C20: the orderer delivers what the pool batches - a transaction batched twice is delivered twice)
+// zz:also C19 C20
 func ZZH_C18_pipeline() {
 	zz.ConcreteClock(1000) // arrival order = submission order; ageing is the subject of ZZH_C19_evict
 	batchSize := uint64(1 + zz.Choice("batchSize", 3))
 	m := &zzPoolModel{committed: append([]uint64{}, zzBase...), nextBatch: append([]uint64{}, zzBase...), lastHeight: 1}
-	mp := zzNewPool(batchSize, m)
+	m.timed = zz.Choice("timedBlocks", 2) == 1
+	mp := zzNewPoolMode(batchSize, m, m.timed)
 	nextHash := 0
 	tsOrder := zz.Choice("timestampOrder", 3)
 	submit := func() {
